@@ -57,7 +57,7 @@ Section Eq.
                    | (EvVal nx o2, st2) =>
                        match logical_op op with
                        | Some f => Ok (EvVal (vbool (f unar nx)) o2, st2)
-                       | None => Panic 886
+                       | None => Panic 900
                        end
                    end
                end
@@ -80,7 +80,7 @@ Section Eq.
                | (EvVal nx o2, st2) =>
                    match equality_op parse_float re_match op with
                    | Some f => Ok (EvVal (vbool (f comp nx)) o2, st2)
-                   | None => Panic 853
+                   | None => Panic 867
                    end
                end
            end
@@ -102,7 +102,7 @@ Section Eq.
                | (EvVal nx o2, st2) =>
                    match comparison_op parse_float op with
                    | Some f => Ok (EvVal (vbool (f logic nx)) o2, st2)
-                   | None => Panic 830
+                   | None => Panic 844
                    end
                end
            end
@@ -134,9 +134,11 @@ Section Eq.
             let '(pvals, st1) := r in
             match lookup h with
             | Some hf =>
-                let* hr := hf (VJ st :: v :: pvals) st1 in
-                let '(o, v', st2) := hr in
-                Ok (EvVal v' o, st2)
+                if no_match result && subject_helper h then Ok (EvVal vfalse ORef, st1)
+                else
+                  let* hr := hf (VJ st :: v :: pvals) st1 in
+                  let '(o, v', st2) := hr in
+                  Ok (EvVal v' o, st2)
             | None => Ok (EvCollapse ORef, st1)
             end
         | _, _ => Ok (EvVal v ORef, st)
@@ -207,7 +209,7 @@ Section Eq.
                    | (EvVal v _, st1) => Ok (v, st1)
                    | (EvCollapse _, st1) => Ok (vfalse, st1)
                    end
-               | ExNone => Panic 692
+               | ExNone => Panic 701
                end
       end.
   Proof. reflexivity. Qed.
